@@ -302,9 +302,9 @@ fn validate_dedicated_member_attrs<T, U: Fn(&T) -> Option<&TypePath>>(attrs: &Ve
 
 fn validate_parent_attrs(named_root_struct: bool, field: &Field, parent_attrs: &[ParentAttr], data_type_attrs_by_kind: &[(&TraitAttrCore, Kind, bool)], errors: &mut HashMap<String, Span>) {
     for p in parent_attrs {
-        for (attr, _, _) in data_type_attrs_by_kind.iter().filter(|(x, kind, _)| !kind.is_from() && (p.container_ty.is_none() || &x.ty == p.container_ty.as_ref().unwrap())) {
+        for (attr, kind, _) in data_type_attrs_by_kind.iter().filter(|(x, kind, _)| !kind.is_from() && (p.container_ty.is_none() || &x.ty == p.container_ty.as_ref().unwrap())) {
             if let Some(fields) = p.child_fields.as_ref() { fields.iter().for_each(|f| {
-                if (attr.type_hint == TypeHint::Struct || named_root_struct) && !f.named_fields() && f.attrs.is_empty() {
+                if (attr.type_hint == TypeHint::Struct || named_root_struct) && !f.named_fields() && f.get_for_kind(kind).map_or(true, |x| x.that_member.is_none()) {
                     let s = f.this_member.to_token_stream().to_string(); 
                     errors.insert(format!("Member {0} should have an instruction that specifies corresponding field name of type {2}, e.g. #[parent({1}[map(field_name)] {0}, ...)]", s, if s == "0" { "" } else { "..., " }, attr.ty.path_str), f.this_member.span());
                 }
